@@ -144,6 +144,16 @@ def regenerate(repo, outdir):
     _write(os.path.join(outdir, 'Gen_address_py.v'),
            (HEADER % 'src/fqe/fci_graph.py').replace('Import GenBase.', 'Import GenBase Addr GenLoops.') + text)
     res['Gen_address_py'] = {'leaves': status, 'ok': not text == ''}
+    # --- fqe/wavefunction.py: the stopping rules of the polynomial propagators as loop skeletons
+    src = open(os.path.join(repo, 'src/fqe/wavefunction.py')).read()
+    try:
+        text, status = py2coq.translate_propagator_loops(src, 'Wavefunction', 'apply_generated_unitary')
+    except py2coq.Unsupported as e:
+        text, status = '', {'apply_generated_unitary': 'unsupported: %s' % e}
+    hdr = ('(* GENERATED from src/fqe/wavefunction.py by /verif/translate on every run -- do not edit *)\n'
+           'From FQE Require Import Poly LoopSkel.\n\n')
+    _write(os.path.join(outdir, 'Gen_propagator_loops.v'), hdr + text)
+    res['Gen_propagator_loops'] = {'leaves': status, 'ok': not text == ''}
     return res
 
 
